@@ -95,7 +95,8 @@ def run(pid, tier, programs=None):
     res = C.Result(pid, tier)
     known = [k for k in C.load_known().get("findings", []) if k.get("property") == pid]
     with C.Lock():
-        lean_ok, names = C.lean_phase(res, pid, gen_fn=regen_memorder if pid == "C03" else None, thorough_modules=["Cuckoo.Model.Proto"])
+        lean_ok, names = C.lean_phase(res, pid, gen_fn=regen_memorder if pid == "C03" else None, thorough_modules=["Cuckoo.Model.Proto"],
+                                      extra_props=["C01Conc"] if pid == "C01" else [])
     if pid == "C03":
         tsan_runs(res, tier, known)
     out = k3.explore(tier, C.seed(), programs=programs)
